@@ -28,6 +28,15 @@
 (*                                 value> raised: nothing changes          *)
 (*   other c, v                    ANOTHER live object of class c was      *)
 (*                                 created / configured with v / dumped    *)
+(*   reorder kind, f, g            obj.sort_fields() (kind "sort"),        *)
+(*                                 sort_fields(key function) ("sortkey"),  *)
+(*                                 order_first / order_last(f), order_     *)
+(*                                 before / order_after(f, g); f, g =      *)
+(*                                 field index or 0 (a field outside the   *)
+(*                                 tables); also BEFORE the first dump.    *)
+(*                                 Changes the order of the fields only:   *)
+(*                                 the next dump / edit / deletion must be *)
+(*                                 explained by the same records           *)
 (* A dump is always of the living object, a parse always of a fresh object *)
 (* made from the dumped text; mutations change the living object, and the  *)
 (* next dump must be explained by its CURRENT records.                     *)
@@ -65,7 +74,7 @@ TInit == /\ tid \in 1..Len(Traces)
          /\ opt = [beh |-> Traces[tid].beh, set |-> Traces[tid].behset, shared |-> Traces[tid].beh]
          /\ shape = NoShape
          /\ para = <<>> /\ phase = "build" /\ widths = <<>> /\ text = <<>> /\ parsed = <<>> /\ res = "ok"
-         /\ nmut = 0 /\ hist = <<>> /\ cache = NoCache
+         /\ nmut = 0 /\ hist = <<>> /\ cache = NoCache /\ fold = <<>>
 
 \* obj = cls(text): the object holds what the text says; the text must be a rendering of recs.
 \* (The large predicates are written "P = TRUE": TLC then evaluates them as values instead of
@@ -75,6 +84,7 @@ Given(p, t) == /\ phase = "build" /\ para = <<>>
                /\ (\A f \in DOMAIN p : MEntryOK(Subs(f), p[f])) = TRUE
                /\ MExplains(Tables, cls, beh, p, t, FALSE) = TRUE
                /\ para' = p /\ text' = t /\ phase' = "dumped" /\ res' = "ok"
+               /\ fold' = [f \in DOMAIN p |-> TRUE]
                /\ UNCHANGED <<mode, cls, start, opt, shape, widths, parsed, nmut, hist, cache>>
 
 TStep == /\ l <= Len(Tr.events)
@@ -107,6 +117,8 @@ TStep == /\ l <= Len(Tr.events)
                  /\ OtherSet(e.c, e.v)
               \/ /\ e.op = "setbehfails"       \* an illegal value was assigned and rejected
                  /\ SetBehFails
+              \/ /\ e.op = "reorder"           \* sort_fields / order_first / order_last / order_before / order_after
+                 /\ Reorder(e.kind, e.f, e.g)
          /\ l' = l + 1 /\ UNCHANGED tid
          /\ (Diag => PrintT(<<"AT", tid, l>>))
          /\ (l' = Len(Tr.events) + 1 => PrintT(<<"ACCEPTED", tid>>))
